@@ -1342,18 +1342,22 @@ func (c *IPAMController) garbageCollectKnownLeaks() error {
 
 	var opts []ipam.ReleaseOptions
 	leaks := map[string]*allocation{}
-	for id, a := range c.confirmedLeaks {
-		logc := log.WithFields(a.fields())
 
-		// Final check that the allocation is leaked. We prefer the cache when the hosting node has been
-		// deleted, as we're reasonably confident this is a leak. Otherwise, we go to the API server directly for extra confidence
-		// that the Pod is actually gone.
+	// Final check that each allocation is leaked. We prefer the cache when the hosting node has been
+	// deleted, as we're reasonably confident this is a leak. Otherwise, we go to the API server directly for extra confidence
+	// that the Pod is actually gone. This runs to completion before any handle is judged below: a resurrection
+	// clears the allocation's confirmed flag, and the all-or-none decision for its handle must not depend on
+	// whether map iteration happened to visit the resurrected allocation before or after its siblings.
+	for id, a := range c.confirmedLeaks {
 		if c.allocationIsValid(a, a.knode == "") {
-			logc.Info("Leaked IP has been resurrected after querying latest state")
+			log.WithFields(a.fields()).Info("Leaked IP has been resurrected after querying latest state")
 			delete(c.confirmedLeaks, id)
 			a.markValid()
-			continue
 		}
+	}
+
+	for _, a := range c.confirmedLeaks {
+		logc := log.WithFields(a.fields())
 
 		// Ensure that all of the IPs with this handle are in fact leaked.
 		if !c.handleTracker.isConfirmedLeak(a.handle) {
